@@ -35,7 +35,7 @@ def inputs():
                                 "a.sol:B": docs.make_contract([b5], [b2, b7, b6])})
 
 
-CFGS = [("-greedy",), ("-greedy", "-storage"), ("-greedy", "-size"), ("-greedy", "-partition")]
+CFGS = [("-greedy",), ("-greedy", "-storage"), ("-greedy", "-push0"), ("-greedy", "-size"), ("-greedy", "-partition")]
 MENU = ["DUP1", "DUP2", "DUP3", "SWAP1", "SWAP2", "SWAP3", "POP", "NOSUCHID_0", "ADD_9"]
 
 
@@ -150,19 +150,23 @@ def equivalent_docs(doc_in, doc_out):
 
 def work(state, unit):
     kind = unit[0]
-    if kind == "replay-identity":
+    if kind == "baseline":
+        # the optimization run; the replay happens in ANOTHER fresh process, as it does for a user of the tool
         _, name, doc = unit
         base = baseline(state, name, doc)
         if base["exc"] or base["out"] is None or not isinstance(base["log"], dict):
             return {"viol": {"clause": "baseline-failed", "detail": str(base["exc"])}}
-        r = replay_log(state, name, doc, base["log"])
+        return {"viol": None, "log": base["log"], "out_text": base["out_bytes"].decode("utf-8", "replace")}
+    if kind == "replay-identity":
+        _, name, doc, log, out_text = unit
+        r = replay_log(state, name, doc, log)
         if r["exc"] or r["out"] is None:
-            return {"viol": {"clause": "replay-of-own-log-failed", "detail": str(r["exc"]), "log": base["log"]}}
-        if r["out_bytes"] != base["out_bytes"]:
+            return {"viol": {"clause": "replay-of-own-log-failed", "detail": str(r["exc"]), "log": log}}
+        if r["out_bytes"].decode("utf-8", "replace") != out_text:
             from .c15 import first_diff
-            return {"viol": {"clause": "replay-not-identical", "detail": first_diff(base["out"], r["out"]),
-                             "log": base["log"]}}
-        return {"viol": None, "log_entries": len(base["log"]), "log_ids": sum(len(v) for v in base["log"].values())}
+            return {"viol": {"clause": "replay-not-identical", "detail": first_diff(json.loads(out_text), r["out"]),
+                             "log": log}}
+        return {"viol": None, "log_entries": len(log), "log_ids": sum(len(v) for v in log.values())}
     _, name, doc, label, log = unit
     r = replay_log(state, name, doc, log)
     if r["exc"] is not None or r["out"] is None:
@@ -175,14 +179,14 @@ def work(state, unit):
 
 def main(tier, seed, only=None):
     chk = report.Check("C11", "fault_enumeration", tier, seed)
-    chk.cov["rule"] = ("inputs (3 synthesized multi-block contracts with stores, splits, pseudo pushes) x 4 option sets; "
+    chk.cov["rule"] = ("inputs (3 synthesized multi-block contracts with stores, splits, pseudo pushes) x 3 (quick) / 5 (thorough) option sets incl. PUSH0 disabled; "
                        "replay of the genuine log must be byte-identical; every single edit of the log from the menu "
                        "(and every pair of edits on the smallest log in the thorough tier) is replayed and must be "
                        "rejected or yield blocks equivalent to the input on the reference EVM; non-trivial = tampered "
                        "logs that were replayed")
     ins = list(inputs())
     tot = {"identity": 0, "tampered": 0, "rejected": 0, "accepted_eq": 0, "budget": 0, "entries": 0}
-    cfgs = CFGS[:2] if tier == "quick" else CFGS
+    cfgs = CFGS[:3] if tier == "quick" else CFGS
     # phase 1: baselines + identity (collect logs in the parent)
     logs = {}
 
@@ -200,20 +204,27 @@ def main(tier, seed, only=None):
             tot["identity"] += 1
             tot["entries"] += value["log_entries"]
 
-    tasks = [(cfg, [("replay-identity", n, d)]) for cfg in cfgs for n, d in ins]
+    outs = {}
+
+    def on0(cfg, unit, status, value):
+        chk.add("evaluations")
+        if status != "ok":
+            tot["budget"] += 1
+            chk.violation("harness-%s" % status, {"detail": str(value)[-300:], "config": list(cfg)})
+            return
+        if value["viol"]:
+            v = value["viol"]
+            v.update({"input": unit[1], "config": list(cfg), "doc": unit[2]})
+            chk.violation(v["clause"], v)
+            return
+        logs[(cfg, unit[1])] = value["log"]
+        outs[(cfg, unit[1])] = value["out_text"]
+
+    pool.run_tasks([(cfg, [("baseline", n, d)]) for cfg in cfgs for n, d in ins], work, setup=setup, unit_timeout=300,
+                   on_result=on0)
+    docmap0 = dict(ins)
+    tasks = [(cfg, [("replay-identity", n, docmap0[n], logs[(cfg, n)], outs[(cfg, n)])]) for (cfg, n) in sorted(logs)]
     pool.run_tasks(tasks, work, setup=setup, unit_timeout=300, on_result=on1)
-
-    # the parent needs the logs to enumerate edits: recompute them in a child and ship them back
-    def get_log(state, unit):
-        _, name, doc = unit
-        return baseline(state, name, doc)["log"]
-
-    def on_log(cfg, unit, status, value):
-        if status == "ok" and isinstance(value, dict):
-            logs[(cfg, unit[1])] = value
-
-    pool.run_tasks([(cfg, [("log", n, d)]) for cfg in cfgs for n, d in ins], get_log, setup=setup, unit_timeout=300,
-                   on_result=on_log)
 
     def on2(cfg, unit, status, value):
         chk.add("evaluations")
@@ -277,9 +288,14 @@ def replay(path):
 
     if w.get("clause") == "tampered-log-accepted":
         unit = ("tamper", w["input"], w["doc"], w["label"], w["log"])
+        pool.run_tasks([(tuple(w["config"]), [unit])], work, setup=setup, unit_timeout=300, on_result=on_r)
     else:
-        unit = ("replay-identity", w["input"], w["doc"])
-    pool.run_tasks([(tuple(w["config"]), [unit])], work, setup=setup, unit_timeout=300, on_result=on_r)
+        pool.run_tasks([(tuple(w["config"]), [("baseline", w["input"], w["doc"])])], work, setup=setup,
+                       unit_timeout=300, on_result=on_r)
+        b = res.get("value") or {}
+        if res.get("status") == "ok" and not b.get("viol"):
+            unit = ("replay-identity", w["input"], w["doc"], b["log"], b["out_text"])
+            pool.run_tasks([(tuple(w["config"]), [unit])], work, setup=setup, unit_timeout=300, on_result=on_r)
     v = res.get("value")
     print("replay:", res.get("status"), str(v)[:300])
     if res.get("status") != "ok" or v.get("viol"):
